@@ -37,7 +37,7 @@ COMPILER_REPLAYS = {
     "u_dynvis": ["replay/c17/run.sh"],
     "u_dceblk": ["replay/c09/run.sh"],
     "u_rows": ["replay/c06/run.sh", "replay/c06/struct_fields.sh", "replay/c06/string_no_default.sh"],
-    "u_loadpkg": ["replay/c16/run.sh", "replay/c16/reserved_builtin.sh", "replay/c13/relpath.sh"],
+    "u_loadpkg": ["replay/c16/run.sh", "replay/c16/reserved_builtin.sh", "replay/c13/relpath.sh", "replay/c12/sibling_parse_error.sh"],
     "u_deprec": ["replay/c16/self_import.sh"],
     "u_orphan": ["replay/c16/dup_impl.sh"],
 }
